@@ -894,7 +894,8 @@ func genPayloadMoveCase(r *rand.Rand) Sess {
 					break
 				}
 			}
-		} else if r.Intn(8) == 0 {
+		} else if r.Intn(8) == 0 || (lastMoved && r.Intn(2) == 0) {
+			// SendCommand(s): consult only the cached level (not judged when a payload moved the device behind it)
 			op = Op{Kind: []string{"command", "commands"}[r.Intn(2)], Level: -1, Lines: s.pickLines(r, 1)}
 			t = s.Default
 		} else {
